@@ -105,6 +105,15 @@ var bodyFiles = map[string]*facts.BodyFile{
 				Binders: "(raw : Bytes)",
 				Vals:    map[string]facts.Val{"recv.RawResult": {Lean: "raw", Ty: "bytes"}},
 				State:   []facts.StateVar{{Key: "recv.Result", Lean: "result", Ty: "bytes"}}},
+			{Dir: "response", Recv: "NetconfResponse", Name: "record1dot1Chunks", Lean: "record1dot1Chunks",
+				Doc: "`raw` = `r.RawResult`; state: `result` = `r.Result`. Every `errNetconf1Dot1ParseError(…)` is " +
+					"`some \"errNetconf1Dot1Error\"` (the message is not modelled).",
+				Binders: "(raw : Bytes)", BinderArgs: "raw",
+				Vals:    map[string]facts.Val{"recv.RawResult": {Lean: "raw", Ty: "bytes"}},
+				Funcs: map[string]facts.LibFn{
+					"errNetconf1Dot1ParseError": {AnyArgs: true, Ret: []string{"error"}, Tmpl: "(some \"errNetconf1Dot1Error\" : Go.Error)"},
+				},
+				State: []facts.StateVar{{Key: "recv.Result", Lean: "result", Ty: "bytes"}}},
 		},
 	},
 	// C05: channel/channel.go
@@ -139,6 +148,89 @@ var bodyFiles = map[string]*facts.BodyFile{
 				State: []facts.StateVar{
 					{Key: "recv.SelectedVersion", Lean: "sel", Ty: "bytes"},
 					{Key: "recv.Channel.PromptPattern", Lean: "prompt", Ty: "opaque:P"},
+				}},
+		},
+	},
+	// C03: driver/netconf/message.go
+	"BodiesRequest.lean": {
+		Namespace: "Scrapli.Gen.Bodies.Request",
+		Fns: []*facts.FnSpec{
+			{Dir: "driver/netconf", Recv: "message", Name: "serialize", Lean: "serialize",
+				Doc: "`body` = the result of `xml.Marshal(m)` (taken to succeed), `selfCloseF` = `ForceSelfClosingTags`; " +
+					"state: the two fields of the returned `*serializedInput` (the pointer itself is `()`).",
+				Binders: "(body : Bytes) (selfCloseF : Bytes → Bytes)", BinderArgs: "body selfCloseF",
+				Results: []string{"unit", "error"},
+				Vals:    map[string]facts.Val{"&serializedInput{}": {Lean: "()", Ty: "unit"}},
+				Funcs: map[string]facts.LibFn{
+					"xml.Marshal":          {AnyArgs: true, Ret: []string{"bytes", "error"}, Tmpl: "(body, (none : Go.Error))"},
+					"ForceSelfClosingTags": {Args: []string{"bytes"}, Ret: []string{"bytes"}, Tmpl: "(selfCloseF %0)"},
+				},
+				State: []facts.StateVar{
+					{Key: "serialized.rawXML", Lean: "rawXML", Ty: "bytes"},
+					{Key: "serialized.framedXML", Lean: "framedXML", Ty: "bytes"},
+				}},
+		},
+	},
+	// C04: driver/network/acquirepriv.go
+	"BodiesPriv.lean": {
+		Imports:   []string{"ScrapliModel.Priv"},
+		Namespace: "Scrapli.Gen.Bodies.Priv",
+		Fns: []*facts.FnSpec{
+			{Dir: "driver/network", Recv: "Driver", Name: "processAcquirePriv", Lean: "processAcquirePriv",
+				Doc: "`L` = `d.PrivilegeLevels` (association list keyed by `Name`), `possible` / `detErr` = what " +
+					"`determineCurrentPriv(currentPrompt)` returned, `path cur tgt` = `buildPrivChangeMap(cur, tgt, nil)`; " +
+					"state: `cache` = `d.CurrentPriv`. A nil map entry dereferenced or `mapTo[1]` out of range is the `panic` fault.",
+				Binders:    "(L : Priv.Levels) (possible : List Bytes) (detErr : Go.Error) (path : Bytes → Bytes → List Bytes)",
+				BinderArgs: "L possible detErr path",
+				Fail:       &facts.FailMode{Ty: "Priv.Err", Panic: ".error Priv.Err.panic"},
+				Funcs: map[string]facts.LibFn{
+					"recv.determineCurrentPriv": {AnyArgs: true, Ret: []string{"list", "error"}, Tmpl: "(possible, detErr)"},
+					"util.StringSliceContains":  {Args: []string{"list", "bytes"}, Ret: []string{"bool"}, Tmpl: "(List.contains %0 %1)"},
+					"recv.buildPrivChangeMap":   {Args: []string{"bytes", "bytes", "list"}, Ret: []string{"list"}, Tmpl: "(path %0 %1)"},
+					"recv.PrivilegeLevels[_].Name": {Args: []string{"bytes"}, Ret: []string{"bytes"},
+						Tmpl: "(((Priv.find? L %0).map (·.name)).getD [])", Check: "(Priv.find? L %0).isSome"},
+					"recv.PrivilegeLevels[_].PreviousPriv": {Args: []string{"bytes"}, Ret: []string{"bytes"},
+						Tmpl: "(((Priv.find? L %0).map (·.previous)).getD [])", Check: "(Priv.find? L %0).isSome"},
+				},
+				State: []facts.StateVar{{Key: "recv.CurrentPriv", Lean: "cache", Ty: "bytes"}}},
+		},
+	},
+	// C17: platform/definition.go
+	"BodiesPlatform.lean": {
+		Imports:   []string{"ScrapliModel.Platform"},
+		Namespace: "Scrapli.Gen.Bodies.Platform",
+		Fns: []*facts.FnSpec{
+			{Dir: "platform", Recv: "Platform", Name: "mergeVariant", Lean: "mergeVariant",
+				Doc: "`v` = the variant's sections (strings are Lean `String`s here, a nil on-X list is `none`); " +
+					"state: the eight sections of the receiver that the method may replace.",
+				Binders: "{L S O : Type} (v : Platform.Sections L S O)", BinderArgs: "v", SkipParams: []string{"v"},
+				Vals: map[string]facts.Val{
+					`v.DriverType != ""`:                   {Lean: `(v.driverType != "")`, Ty: "bool"},
+					"v.DriverType":                         {Lean: "v.driverType", Ty: "opaque:String"},
+					"len(v.FailedWhenContains) > 0":        {Lean: "(decide (v.failedWhen.length > 0))", Ty: "bool"},
+					"v.FailedWhenContains":                 {Lean: "v.failedWhen", Ty: "opaque:List String"},
+					"v.OnOpen != nil":                      {Lean: "v.onOpen.isSome", Ty: "bool"},
+					"v.OnOpen":                             {Lean: "v.onOpen", Ty: "opaque:Option (List S)"},
+					"v.OnClose != nil":                     {Lean: "v.onClose.isSome", Ty: "bool"},
+					"v.OnClose":                            {Lean: "v.onClose", Ty: "opaque:Option (List S)"},
+					"len(v.PrivilegeLevels) > 0":           {Lean: "(decide (v.levels.length > 0))", Ty: "bool"},
+					"v.PrivilegeLevels":                    {Lean: "v.levels", Ty: "opaque:List L"},
+					`v.DefaultDesiredPrivilegeLevel != ""`: {Lean: `(v.defaultLevel != "")`, Ty: "bool"},
+					"v.DefaultDesiredPrivilegeLevel":       {Lean: "v.defaultLevel", Ty: "opaque:String"},
+					"v.NetworkOnOpen != nil":               {Lean: "v.netOnOpen.isSome", Ty: "bool"},
+					"v.NetworkOnOpen":                      {Lean: "v.netOnOpen", Ty: "opaque:Option (List S)"},
+					"v.NetworkOnClose != nil":              {Lean: "v.netOnClose.isSome", Ty: "bool"},
+					"v.NetworkOnClose":                     {Lean: "v.netOnClose", Ty: "opaque:Option (List S)"},
+				},
+				State: []facts.StateVar{
+					{Key: "recv.DriverType", Lean: "driverType", Ty: "opaque:String"},
+					{Key: "recv.FailedWhenContains", Lean: "failedWhen", Ty: "opaque:List String"},
+					{Key: "recv.OnOpen", Lean: "onOpen", Ty: "opaque:Option (List S)"},
+					{Key: "recv.OnClose", Lean: "onClose", Ty: "opaque:Option (List S)"},
+					{Key: "recv.PrivilegeLevels", Lean: "levels", Ty: "opaque:List L"},
+					{Key: "recv.DefaultDesiredPrivilegeLevel", Lean: "defaultLevel", Ty: "opaque:String"},
+					{Key: "recv.NetworkOnOpen", Lean: "netOnOpen", Ty: "opaque:Option (List S)"},
+					{Key: "recv.NetworkOnClose", Lean: "netOnClose", Ty: "opaque:Option (List S)"},
 				}},
 		},
 	},
